@@ -150,7 +150,9 @@ extern "C" void harness_fault_positions()  /* vf: bounds=14_text_blocks_x_7_faul
     vf_note(BLOCKS[b].path); vf_note(text.c_str());
     vf_assert(!threw, "parse-returns");
     bool in_block = false, all_ok = true;
-    for (auto& e : doc.get_errors()) {
+    std::vector<UTAP::error_t> diags(doc.get_errors().begin(), doc.get_errors().end());
+    diags.insert(diags.end(), doc.get_warnings().begin(), doc.get_warnings().end());   // warnings carry positions under the same rules
+    for (auto& e : diags) {
         std::string p = e.start.path ? *e.start.path : std::string(), pe = e.end.path ? *e.end.path : std::string();
         vf_note((e.msg + diag_pos(e)).c_str());
         long sc = (long)e.position.start - (long)e.start.position, ec = (long)e.position.end - (long)e.end.position;
@@ -164,4 +166,47 @@ extern "C" void harness_fault_positions()  /* vf: bounds=14_text_blocks_x_7_faul
     if (!side_effect_in_update || true) vf_assert(doc.has_errors(), "fault-reported");
     vf_assert(in_block, "an-error-is-reported-inside-the-faulted-block");
     vf_assert(all_ok, "every-error-lies-inside-the-block-line-and-columns");
+}
+
+// diagnostics whose expression spans several lines: start and end are resolved separately through the line table
+extern "C" void harness_multiline_ranges()  /* vf: bounds=errors_and_warnings_on_expressions_spanning_2..3_lines_in_updates,guards,invariants,declarations,system;11_layouts_before_the_block;exact_start_and_end_line/column reach=end */
+{
+    struct Case { int block; const char* head; const char* expr; const char* tail; const char* msg; bool warning; };
+    // expr is the (multi-line) expression the diagnostic must cover exactly
+    static const Case CASES[] = {
+        {6, "h = 1, ", "g +\n  1", "", "$Expression_does_not_have_any_effect", true},
+        {8, "", "g\n ==\n 2", ", loc = 1", "$Expression_does_not_have_any_effect", true},
+        {5, "g < 3 && (", "g +\n c", ") > 0", "$Type_error", false},   // the message text is not compared, only the range
+        {0, "int g; int h; clock x; clock y; chan c; const int K = 2; int q = ", "g +\n\n 1", ";", "$Must_be_computable_at_compile_time", false},
+        {6, "", "h =\r\n  c", "", "$Incompatible_types", false},
+        {3, "z <= 5 && (", "c ==\n 1", ")", "", false}};
+    int ci = vf_pick("!case", 6), lay = vf_pick("!layout", NLAYOUT);
+    const Case& cs = CASES[ci];
+    MModel m = base_model();
+    std::string* t = block_text(m, cs.block);
+    std::string pre = std::string(LAYOUT[lay]) + cs.head;
+    std::string text = pre + cs.expr + cs.tail;
+    *t = text;
+    auto linecol = [&](size_t at, int& line, int& col) { line = 1; size_t bol = 0; for (size_t i = 0; i < at; i++) if (text[i] == '\n') { line++; bol = i + 1; } col = (int)(at - bol); };
+    int sl, sc, el, ec;
+    linecol(pre.size(), sl, sc); linecol(pre.size() + strlen(cs.expr), el, ec);
+    XmlDoc d = render_xml(m);
+    Document doc; bool threw = false;
+    try { parse_xml(d, &doc); } catch (std::exception& e) { threw = true; vf_note(e.what()); }
+    vf_note(BLOCKS[cs.block].path); vf_note(text.c_str()); vf_notei("sl", sl); vf_notei("sc", sc); vf_notei("el", el); vf_notei("ec", ec);
+    vf_assert(!threw, "parse-returns");
+    std::vector<UTAP::error_t> diags(doc.get_errors().begin(), doc.get_errors().end());
+    diags.insert(diags.end(), doc.get_warnings().begin(), doc.get_warnings().end());
+    bool exact = false, sane = true;
+    for (auto& e : diags) {
+        std::string p = e.start.path ? *e.start.path : std::string(), pe = e.end.path ? *e.end.path : std::string();
+        vf_note((e.msg + diag_pos(e)).c_str());
+        long c0 = (long)e.position.start - (long)e.start.position, c1 = (long)e.position.end - (long)e.end.position;
+        if (p != BLOCKS[cs.block].path || pe != p || e.start.line > e.end.line || c0 < 0 || c1 < 0 || e.position.start > e.position.end) sane = false;
+        if (p == BLOCKS[cs.block].path && (int)e.start.line == sl && c0 == sc && (int)e.end.line == el && c1 == ec) exact = true;
+    }
+    vf_reach("end");
+    vf_assert(!diags.empty(), "diagnostic-reported");
+    vf_assert(sane, "start-and-end-in-the-same-element-and-ordered");
+    vf_assert(exact, "a-diagnostic-covers-exactly-the-multi-line-expression");
 }
